@@ -45,6 +45,12 @@ CHECKS = {
     text='Machine-checked proof about the model of Model::fixVariableInterfaces (publicAndOrPrivateInterfaceTypeRequired, interfaceTypeFor, permitsInterfaceType), of the validator interface check, of linkUnits/hasUnlinkedUnits and of clean: a variable all of whose equivalences are reachable raises no validator interface issue after the fix whatever its interface string was, a sufficient interface is left unchanged, the call returns false exactly when some equivalence is unreachable or involves a parentless variable (and still repairs the others); linkUnits true implies nothing unlinked and every loose reference replaced by the model-owned units of that name, false iff a foreign or missing units; clean removes exactly the empty components (bottom-up) and units and is idempotent.  The superseded early exit is refuted by a kernel-evaluated witness.  Tie: real Model/Validator calls on generated models (arbitrary interface strings; sibling, parent, child, unreachable, other-model, parentless positions; units by loose/standard/own/foreign object; seeded empty components and units), compared with the model and with an independent python reference.',
     note='Trusted: Lean kernel; hx_repair.cpp/hx_entity.h and driver; generators and reference.  Relative positions are computed from component paths; validator interface issues compared per variable as "involved in"; components that are imports, resets and variable units are stripped from the fix scenarios (the validator skips imported components; a reset on a free-standing variable crashes validateReset: C01/C09).',
     design='4 C19'),
+ 'C11': dict(
+    engine='clone',
+    technique='Lean 4 proof: clone functions transcribed field by field preserve content (epochs erased) for units, variables, resets, component trees and models (with unit re-linking under a consistency hypothesis); every object of the clone is created by the call (epoch argument) except import sources (known finding, refuted/fixed variants); differential dumps plus pointer-disjointness of the real object graphs',
+    text='Machine-checked proof about the model of Units/Variable/Reset/Component/Model::clone in which every object carries the epoch of the call that created it: the content of the clone (all attributes, resets re-targeted by index, whether an order is set, encapsulation ids, unit re-linking, equivalences by position) equals that of the original for every entity, and every object reachable from the clone belongs to the clone epoch — except import sources, which the current code shares with the original (kernel-checked witness; known finding; proved fresh for the counterfactual that clones them).  Tie: real clone() on generated entities of all five kinds (valid or not): wire dumps of clone and original compared with each other and with the model, equals in both directions, no parent, equivalences by position with mapping/connection ids, and pointer disjointness of the two reachable object graphs.',
+    note='Trusted: Lean kernel; hx_clone.cpp/hx_entity.h (builder, dumper, reachability) and driver; generators.  Independence is established through disjointness of the reachable entity objects (all mutable state lives there); the "mutate one, re-dump the other" experiment is not run separately.  Mapping/connection ids of equivalences are checked on the implementation only.  One known finding (shared ImportSource).',
+    design='4 C11'),
 }
 
 def manifest():
@@ -73,7 +79,8 @@ def manifest():
                    enable='each check configures /repo into a scratch dir with -DCMAKE_CXX_FLAGS=-DLIBCELLML_VERIF (vlib/common.py: build_lib) and links harness/hx_*.cpp against the static library',
                    baseline_off_cmd='python3 tools/baseline_off.py',
                    source_commits=hooks['source_commits'], add_only=True),
-        engines=[dict(name='repair', path='harness/hx_repair.cpp + lean/Cellml/Engine/Repair.lean', serves_properties=['C19'], kind_free_text='differential: real fixVariableInterfaces/linkUnits/clean (+Validator) vs Lean model'),
+        engines=[dict(name='clone', path='harness/hx_clone.cpp + lean/Cellml/Engine/Clone.lean', serves_properties=['C11'], kind_free_text='differential: real clone() dumps / reachability vs epoch-labelled Lean model'),
+                 dict(name='repair', path='harness/hx_repair.cpp + lean/Cellml/Engine/Repair.lean', serves_properties=['C19'], kind_free_text='differential: real fixVariableInterfaces/linkUnits/clean (+Validator) vs Lean model'),
                  dict(name='annot', path='harness/hx_annot.cpp + lean/Cellml/Engine/Annot.lean', serves_properties=['C13'], kind_free_text='differential: real Annotator histories vs slot-level Lean model, exact identifiers after every operation'),
                  dict(name='equals', path='harness/hx_equals.cpp + hx_entity.h + lean/Cellml/Engine/Equals.lean', serves_properties=['C10'], kind_free_text='differential: real equals() vs value-level Lean model on generated pairs'),
                  dict(name='units', path='harness/hx_units.cpp + lean/Cellml/Engine/Units.lean', serves_properties=['C08'], kind_free_text='differential: real Units::compatible/scalingFactor/equivalent/updateUnitMultiplier vs exact-rational Lean model'),
